@@ -100,6 +100,253 @@ def rule_a(ctx):
               'InFlight::remove is no longer guarded by the path generation comparison')
 
 
+PATH_CTORS = ('PathData::new', 'PathData::from_previous')
+
+
+def _is_step(v, field):
+    """v IS `self.<field> + k` / `self.<field>.wrapping_add(k)` with a non-zero integer constant k"""
+    def k(x):
+        return x[0] == 'const' and x[1] == 'int' and str(x[2]) not in ('0', '')
+    if v[0] == 'bin' and v[1] == 'Add':
+        a, b = v[2], v[3]
+    elif v[0] == 'call' and v[1] in ('u64::wrapping_add', 'u64::checked_add', 'u64::strict_add') and len(v[3]) == 2:
+        a, b = v[3]
+    else:
+        return False
+    return (_is_field(a, field) and k(b)) or (_is_field(b, field) and k(a))
+
+
+def _read_sites(body, operand, adt, field, seen=None):
+    """statements that read `adt.field` and whose value is what `operand` carries (copies through whole locals followed
+    backwards); None when some reaching definition is anything else"""
+    if operand[0] not in ('c', 'm'):
+        return None
+    place = operand[1]
+    if place_ends_in_field(place, adt, field):
+        return []   # read in place at the use
+    if place[1]:
+        return None
+    seen = set() if seen is None else seen
+    if place[0] in seen:
+        return []
+    seen.add(place[0])
+    out = []
+    defs = body.defs_of(place[0])
+    if not defs:
+        return None
+    for df in defs:
+        if df[0] != 'stmt' or df[3][0] != 'use' or df[3][1][0] not in ('c', 'm'):
+            return None
+        src = df[3][1]
+        if place_ends_in_field(src[1], adt, field):
+            out.append((df[1], df[2]))
+            continue
+        sub = _read_sites(body, src, adt, field, seen)
+        if sub is None:
+            return None
+        out.extend(sub)
+    return out
+
+
+def _path_generation(ctx):
+    """PathData::remove_in_flight attributes a packet to a path by `packet.path_generation == self.generation` (checked by
+    remove_only_on_matching_generation). That is an identification only if no two paths of a connection ever carry the same
+    generation, including a path that replaced an abandoned one (migration aborted, `path = prev`), whose packets are still
+    outstanding:
+      * PathData.generation is set only by the aggregate in the two constructors, from their parameter;
+      * every constructor call outside Connection's own construction passes the connection-level counter
+        Connection.path_counter, read AFTER a store `path_counter = path_counter + k` (k != 0) that lies on every path to the
+        call, and two constructor calls are never reached without such a store in between;
+      * that counter has no other store (it never goes back: it is not derived from the generation of whatever path is
+        current); the connection's first path gets the constant the counter starts with;
+      * a SentPacket records the generation of the path it is charged to."""
+    F = ctx.facts
+    inst = 'path_generation_unique_per_path'
+    ws = [w for w in field_writes(F, 'PathData', 'generation', crate='quinn_proto', include_borrows=True)]
+    ctx.check(not ws, 'a', 'path_generation_set_at_construction_only', 'PathData.generation', '', 'no store outside the aggregate',
+              'PathData.generation is modified after construction: %s' % [w.where() for w in ws])
+    gen_arg = {}
+    cons = [c for c in constructions(F, 'paths::PathData', crate='quinn_proto')]
+    for c in cons:
+        r = F.root_of(c.body)
+        dd = describer(F, c.body)
+        op = c.field_op('generation')
+        v = dd.operand(op, c.bb, c.idx) if op is not None else ('const', 'other', '<none>', '')
+        ok = r.short in PATH_CTORS and c.body.id == r.id and v[0] == 'param'
+        if ok:
+            gen_arg[r.short] = v[1] - 1
+        ctx.check(ok, 'a', 'path_generation_set_at_construction_only', r, c.where(), 'generation: parameter %s of %s' % (v[2] if ok else '', r.short),
+                  'a PathData is built with a generation that is not the constructor parameter: %s in %s' % (D.render(v)[:120], r.short))
+    ctx.floor('a', 'pathdata_constructions', len(cons), 2)
+    # the counter
+    incs, other = [], []
+    for w in field_writes(F, 'connection::Connection', 'path_counter', crate='quinn_proto', include_borrows=True):
+        if w.kind == 'mutborrow':
+            bs = borrow_stores(F, w)
+            if not bs:
+                other.append((w, '&mut borrow'))
+            ws2 = bs
+        else:
+            ws2 = [w]
+        for x in ws2:
+            dd = describer(F, x.body)
+            v = dd.call_desc(x.call, 0) if x.kind == 'callresult' else (dd.rvalue(x.rv, x.bb, x.idx, 0) if x.rv and x.rv[0] != 'sd' else ('const', 'other', '<sd>', ''))
+            if _is_step(v, 'path_counter'):
+                incs.append(x)
+            else:
+                other.append((x, D.render(v)[:120]))
+    ctx.check(not other, 'a', 'path_counter_only_incremented', 'Connection.path_counter', '', '%d store(s), each `path_counter + k`' % len(incs),
+              'Connection.path_counter is stored with something else than `path_counter + k`: generations can repeat: %s'
+              % [(w.where(), v) for w, v in other])
+    ctx.floor('a', 'path_counter_increments', len(incs), 1)
+    # constructor calls
+    calls = [c for c in F.callers_of(*PATH_CTORS, crate='quinn_proto') if not is_noise(c)]
+    n = 0
+    for c in calls:
+        b = c.body
+        r = F.root_of(b)
+        if r.short in PATH_CTORS:
+            continue
+        n += 1
+        ai = gen_arg.get(short(c.f))
+        if ai is None or ai >= len(c.args):
+            ctx.bad('a', inst, r, c.where(), 'cannot locate the generation argument of %s' % short(c.f))
+            continue
+        g = arg_desc(F, c, ai)
+        if g[0] == 'const':
+            # the first path of a connection: the same function builds the Connection with the counter starting at that constant
+            init = [k for k in constructions(F, 'connection::Connection', crate='quinn_proto') if k.body.id == b.id and k.field_op('path_counter') is not None]
+            dd = describer(F, b)
+            same = bool(init) and all(dd.operand(k.field_op('path_counter'), k.bb, k.idx) == g for k in init)
+            others_ = [x for x in calls if x.body.id == b.id and x is not c]
+            ctx.check(same and not others_, 'a', inst, r, c.where(), 'first path: generation %s = initial path_counter' % D.render(g),
+                      'a path is created with the constant generation %s outside the construction of the connection (or besides another path)' % D.render(g))
+            continue
+        here = [w for w in incs if w.body.id == b.id]
+        inc_bbs = {w.bb for w in here}
+        why = ''
+        if not _is_field(g, 'path_counter') or g[1][0] != 'param':
+            why = 'the generation of the new path is not the connection-level counter path_counter but %s' % D.render(g)[:160]
+        elif not here or (c.bb not in inc_bbs and path_avoiding(b, [0], [c.bb], inc_bbs) is not None):
+            why = 'a path entry -> %s does not increment path_counter' % short(c.f)
+        else:
+            reads = _read_sites(b, c.args[ai], 'connection::Connection', 'path_counter')
+            if reads is None:
+                why = 'cannot establish where the counter value handed to the constructor was read'
+            else:
+                reads = reads or [(c.bb, term_idx(b, c.bb))]
+                for bb, idx in reads:
+                    if not any((w.bb == bb and w.idx < idx) or (w.bb != bb and b.dominates(w.bb, bb)) for w in here):
+                        why = 'the counter value handed to the constructor is read before the increment (line of read: block %d)' % bb
+            for x in calls:
+                if not why and x.body.id == b.id and x.bb in b.reachable_strict(c.bb, avoid=inc_bbs):
+                    why = 'a second path can be constructed (%s) without a further increment of path_counter' % x.where()
+        ctx.check(not why, 'a', inst, r, c.where(), 'generation = path_counter, incremented on every path before the call',
+                  'two paths of a connection can get the same generation (remove_in_flight then subtracts a packet of an abandoned path from '
+                  'the live one): ' + why)
+    ctx.floor('a', 'path_constructor_calls', n, 3)
+    # the generation a packet records is that of the path charged in the same function
+    sp = constructions(F, 'spaces::SentPacket', crate='quinn_proto')
+    for c in sp:
+        r = F.root_of(c.body)
+        dd = describer(F, c.body)
+        op = c.field_op('path_generation')
+        v = dd.operand(op, c.bb, c.idx) if op is not None else ('const', 'other', '<none>', '')
+        base = None
+        if v[0] == 'call' and _is_call(v, 'PathData::generation') and v[3]:
+            base = v[3][0]
+        elif _is_field(v, 'generation'):
+            base = v[1]
+        sent = [arg_desc(F, x, 0) for x in c.body.calls_to('PathData::sent')]
+        ctx.check(base is not None and bool(sent) and all(x == base for x in sent), 'a', 'sent_packet_records_generation_of_charged_path', r, c.where(),
+                  'path_generation = generation of the path whose in-flight counters are charged',
+                  'SentPacket.path_generation is not the generation of the path charged by PathData::sent: %s' % D.render(v)[:160])
+    ctx.floor('a', 'sent_packet_constructions', len(sp), 1)
+
+
+def _space_index(d):
+    """d is `self.spaces[i]` (Index / IndexMut call on the field): returns the descriptor of i"""
+    if d[0] == 'call' and (d[1].endswith('::index_mut') or d[1].endswith('::index')) and len(d[3]) == 2 and _is_field(d[3][0], 'spaces'):
+        return d[3][1]
+    if d[0] == 'index' and _is_field(d[1], 'spaces'):
+        return d[2] if len(d) > 2 else None
+    return None
+
+
+def _space_overwrites(ctx):
+    """A PacketSpace owns the record of its outstanding packets (sent_packets). Overwriting a whole space of
+    Connection.spaces, or its sent_packets field, drops that record, so the packets in it can never be acknowledged, lost
+    or abandoned any more: their bytes would stay in flight for ever. Every such store is therefore preceded, on every path,
+    by Connection::discard_space of the SAME space (which drains sent_packets through remove_in_flight: class
+    space_discarded), with no packet recorded in between; and discard_space drains the space named by its argument."""
+    F = ctx.facts
+    inst = 'space_overwritten_only_after_discard'
+    sites = []   # (body, bb, idx, line, target descriptor or None)
+    for b in F.code_bodies('quinn_proto'):
+        r = F.root_of(b)
+        if r.short.startswith(('PacketSpace::', 'SentPackets::', '<PacketSpace as', '<SentPackets as')) or r.name in CTORS:
+            continue
+        live = b.live_blocks()
+        dd = None
+        for i, j, s in b.stmts():
+            if i not in live or s[0] != '=':
+                continue
+            pl, rv = s[1], s[2]
+            if rv[0] == 'ref':
+                continue
+            tgt = None
+            hit = False
+            if pl[1] == ['*'] and str(b.locals[pl[0]][0]).replace(' ', '') in ('&mutconnection::spaces::PacketSpace', '&mutconnection::spaces::SentPackets', '&mutconnection::sent_packets::SentPackets'):
+                hit = True
+                dd = dd or describer(F, b)
+                tgt = dd.place([pl[0], []], i, j)
+                if _is_field(tgt, 'sent_packets'):
+                    tgt = tgt[1]
+            elif pl[1] and isinstance(pl[1][-1], list) and pl[1][-1][0] in ('i', 'ci') and len(pl[1]) >= 2 and isinstance(pl[1][-2], list) \
+                    and pl[1][-2][0] == 'f' and pl[1][-2][1] == 'spaces' and pl[1][-2][2].endswith('connection::Connection'):
+                hit = True
+            elif place_ends_in_field(pl, 'PacketSpace', 'sent_packets'):
+                hit = True
+                dd = dd or describer(F, b)
+                base = [pl[0], pl[1][:-1]]
+                if base[1] == ['*'] or not base[1]:
+                    tgt = dd.place([pl[0], []], i, j)
+            if hit:
+                sites.append((b, i, j, s[3], tgt))
+    for b, i, j, line, tgt in sites:
+        r = F.root_of(b)
+        where = '%s:%d' % (b.file, line)
+        idx = _space_index(tgt) if tgt is not None else None
+        if idx is None or idx[0] == 'phi':
+            ctx.bad('a', inst, r, where, 'a PacketSpace / its sent_packets is overwritten through a place that cannot be identified as self.spaces[i]')
+            continue
+        ds = [c for c in b.calls_to('Connection::discard_space') if len(c.args) == 3 and arg_desc(F, c, 2) == idx and c.bb != i]
+        dbs = {c.bb for c in ds}
+        why = ''
+        if not ds:
+            why = 'no discard_space(%s) in %s' % (D.render(idx), r.short)
+        else:
+            p = path_avoiding(b, [0], [i], dbs)
+            if p is not None:
+                why = 'a path reaches the store without discard_space(%s): %s' % (D.render(idx), fmt_path(b, p))
+            else:
+                for m in may_sites(F, b, ['PacketSpace::sent', 'SentPackets::insert'], 3):
+                    if m not in dbs and m in b.live_blocks() and path_avoiding(b, b.succ[m], [i], dbs) is not None:
+                        why = 'a packet can be recorded between discard_space and the store (block %d)' % m
+        ctx.check(not why, 'a', inst, r, where, 'preceded on every path by discard_space(%s)' % D.render(idx),
+                  'the sent-packet record of a space is dropped without removing its packets from the in-flight counters: ' + why)
+    ctx.floor('a', 'space_overwrite_sites', len(sites), 1)
+    dsf = ctx.pfn('Connection::discard_space')
+    ivs = dsf.calls_to('SentPackets::into_values')
+    okd = bool(ivs)
+    for c in ivs:
+        a = arg_desc(F, c, 0)
+        srcs = [x for x in D.walk(a) if _is_field(x, 'sent_packets')]
+        okd = okd and bool(srcs) and all((_space_index(x[1]) or ('?',))[0] == 'param' and _space_index(x[1])[1] == 3 for x in srcs)
+    ctx.check(okd, 'a', 'discard_space_drains_named_space', dsf, dsf.where(), 'drains self.spaces[space_id].sent_packets',
+              'discard_space no longer drains the sent packets of the space given by its argument')
+
+
 def gate_branch(ctx, pt):
     """the congestion gate: a comparison between (in_flight.bytes + x) and Controller::window()"""
     F = ctx.facts
@@ -542,7 +789,8 @@ def rule_e(ctx):
         d2 = describer(F, b)
         vals = [d2.rvalue(w.rv, w.bb, w.idx, 0) if w.rv else d2.call_desc(w.call, 0) for w in ws]
         # the stored value IS max(.., self.min_cwnd): one argument of the max is exactly the field
-        ok = bool(ws) and all(v[0] == 'call' and (v[1] in MAX_CALLS or D._trait_form(v[1]) in MAX_CALLS) and any(_is_field(a, 'min_cwnd') for a in v[3]) for v in vals)
+        # (or, in the branch form of the floor, the field itself)
+        ok = bool(ws) and all(_bbr_floor_value(v) for v in vals)
         ctx.check(ok, 'e', 'bbr_on_mtu_update_floor', b, b.where(), what, 'Bbr::on_mtu_update cwnd store lost its max(.., min_cwnd) floor')
     cmw = ctx.pfn('bbr::calculate_min_window')
     rd = ret_descs(F, cmw)
@@ -567,6 +815,7 @@ def rule_e(ctx):
               'returns self.cwnd | min(self.cwnd, self.recovery_window) | get_probe_rtt_cwnd()',
               'Bbr::window() returns a value not bounded by the floored fields cwnd / recovery_window: %s' % [D.render(a)[:120] for a in alts])
     _bbr_recovery_window(ctx)
+    _bbr_min_cwnd_change(ctx)
 
 
 def _is_min_call(d):
@@ -647,27 +896,7 @@ def _bbr_recovery_window(ctx):
                   'the minimum window: %s' % D.render(v)[:300])
     ctx.floor('e', 'bbr_recovery_window_final_stores', n, 2)
     # no store only when not in recovery
-    skip_edges = set()
-    for br in branches(F, crw):
-        inner, neg = peel_not(br.desc)
-        if _is_call(inner, 'RecoveryState::in_recovery') and inner[3] and _is_field(inner[3][0], 'recovery_state'):
-            skip_edges.add((br.bb, br.target(1 if neg else 0)))   # edge on which in_recovery() is false
-            continue
-        # ... or as a match on the discriminant: the edge(s) taken for the NotInRecovery variant only
-        if br.desc[0] == 'discr' and _is_field(br.desc[1], 'recovery_state'):
-            vs = [v['name'] for v in F.adt('bbr::RecoveryState')['variants']]
-            if 'NotInRecovery' in vs:
-                t = br.target(vs.index('NotInRecovery'))
-                if all(br.target(i) != t for i, nm in enumerate(vs) if nm != 'NotInRecovery'):
-                    skip_edges.add((br.bb, t))
-            continue
-        # the same test spelled as a comparison: recovery_state == RecoveryState::NotInRecovery
-        rel = relation_on(br.desc, True)
-        if rel and rel[0] in ('Eq', 'Ne'):
-            ops = (rel[1], rel[2])
-            if any(_is_field(x, 'recovery_state') for x in ops) and \
-                    any(x[0] == 'agg' and x[1] == 'adt' and x[2].endswith('RecoveryState::NotInRecovery') for x in ops):
-                skip_edges.add((br.bb, br.true_target() if rel[0] == 'Eq' else br.false_target()))
+    skip_edges = _not_in_recovery_edges(F, crw)
     free = crw.reachable_from(0, avoid=blocks, avoid_edges=skip_edges) if 0 not in blocks else set()
     leak = [r for r in crw.return_blocks() if r in free]
     ctx.check(bool(skip_edges) and not leak, 'e', 'bbr_recovery_window_set_whenever_in_recovery', crw, crw.where(),
@@ -701,6 +930,79 @@ def _bbr_recovery_window(ctx):
                   '%s; every call of %s is followed by calculate_recovery_window (%d caller(s))' % (what, r.short, len(callers)),
                   'an unfloored recovery_window (%s) can be read by window(): %s' % (what, why))
     ctx.floor('e', 'bbr_recovery_state_stores', nrw, 1)
+
+
+def _not_in_recovery_edges(F, body):
+    """branch edges of `body` on which self.recovery_state is NotInRecovery (window() does not read recovery_window then):
+    the false edge of recovery_state.in_recovery(), the NotInRecovery arm of a match on the field, or the equal edge of a
+    comparison of the field with that variant"""
+    skip_edges = set()
+    for br in branches(F, body):
+        inner, neg = peel_not(br.desc)
+        if _is_call(inner, 'RecoveryState::in_recovery') and inner[3] and _is_field(inner[3][0], 'recovery_state'):
+            skip_edges.add((br.bb, br.target(1 if neg else 0)))   # edge on which in_recovery() is false
+            continue
+        # ... or as a match on the discriminant: the edge(s) taken for the NotInRecovery variant only
+        if br.desc[0] == 'discr' and _is_field(br.desc[1], 'recovery_state'):
+            vs = [v['name'] for v in F.adt('bbr::RecoveryState')['variants']]
+            if 'NotInRecovery' in vs:
+                t = br.target(vs.index('NotInRecovery'))
+                if all(br.target(i) != t for i, nm in enumerate(vs) if nm != 'NotInRecovery'):
+                    skip_edges.add((br.bb, t))
+            continue
+        # the same test spelled as a comparison: recovery_state == RecoveryState::NotInRecovery
+        rel = relation_on(br.desc, True)
+        if rel and rel[0] in ('Eq', 'Ne'):
+            ops = (rel[1], rel[2])
+            if any(_is_field(x, 'recovery_state') for x in ops) and \
+                    any(x[0] == 'agg' and x[1] == 'adt' and x[2].endswith('RecoveryState::NotInRecovery') for x in ops):
+                skip_edges.add((br.bb, br.true_target() if rel[0] == 'Eq' else br.false_target()))
+    return skip_edges
+
+
+CTORS = ('new', 'clone', 'clone_box', 'build')
+
+
+def _bbr_min_cwnd_change(ctx):
+    """min_cwnd is the bound the floor idioms of cwnd and recovery_window refer to. A store that changes it (on_mtu_update
+    raises it with the MTU) invalidates the bound of the values already stored, so on every path from such a store to a
+    return
+      * cwnd is stored again with a value that IS >= min_cwnd (read after the change), and
+      * recovery_window likewise, except over an edge on which recovery_state is NotInRecovery (window() does not read it
+        then; entering recovery resets it and calculate_recovery_window recomputes it: bbr_recovery_window_reset_then_recomputed);
+    the edge of a test `field < min_cwnd` on which the field is not below needs no store (branch form of the floor)."""
+    F = ctx.facts
+    ws = [w for w in field_writes(F, 'Bbr', 'min_cwnd', crate='quinn_proto', include_borrows=True) if w.body.name not in CTORS]
+    ctx.floor('e', 'bbr_min_cwnd_stores', len(ws), 1)
+    for w in ws:
+        b = w.body
+        r = F.root_of(b)
+        if w.kind == 'mutborrow':
+            ctx.bad('e', 'bbr_min_cwnd_stores_located', r, w.where(), 'min_cwnd is written through a &mut borrow: the point after which the '
+                    'floored fields must be re-floored cannot be determined')
+            continue
+        rets = [x for x in b.return_blocks() if x in b.live_blocks()]
+        for field, inst, cond in (('cwnd', 'bbr_min_cwnd_change_refloors_cwnd', False),
+                                  ('recovery_window', 'bbr_min_cwnd_change_refloors_recovery_window', True)):
+            fl = [x for x, v in store_values(ctx, 'Bbr', field) if x.body.id == b.id and _bbr_floor_value(v)]
+            if any(x.bb == w.bb and x.idx > w.idx for x in fl):
+                ctx.ok('e', inst, r, w.where(), '%s re-floored right after the min_cwnd store' % field)
+                continue
+            done = {x.bb for x in fl if x.bb != w.bb}
+            skip = set(_not_in_recovery_edges(F, b)) if cond else set()
+            for br in branches(F, b):
+                for truth in (True, False):
+                    rel = relation_on(br.desc, truth)
+                    if rel and rel[0] == 'Le' and _is_field(rel[1], 'min_cwnd') and _is_field(rel[2], field):
+                        skip.add((br.bb, br.target(1 if truth else 0)))
+            reach = b.reachable_strict(w.bb, avoid=done, avoid_edges=skip)
+            leak = [x for x in rets if x in reach]
+            ctx.check(bool(rets) and not leak, 'e', inst, r, w.where(),
+                      'after the store of min_cwnd every path to the return stores %s = max(.., min_cwnd)%s (%d store(s))'
+                      % (field, ' unless not in recovery' if cond else '', len(fl)),
+                      'min_cwnd changes but %s is not re-floored by the new min_cwnd on every path to the return%s: window() can report '
+                      'a value below the minimum window (%d floored store(s) of %s in %s, none on some path after the min_cwnd store)'
+                      % (field, ' while in recovery' if cond else '', len(fl), field, r.short))
 
 
 MAX_CALLS = ('Ord::max', 'u64::max', 'cmp::max')
@@ -912,6 +1214,8 @@ def run(ctx):
     from rules.shared_rules import in_flight_removed_from_either_path
     in_flight_removed_from_either_path(ctx, 'a', 'in_flight_removed_from_either_path')
     rule_a(ctx)
+    _path_generation(ctx)
+    _space_overwrites(ctx)
     gate = rule_b(ctx)
     if gate:
         rule_c(ctx, gate)
